@@ -1916,7 +1916,7 @@ def str_strip_prefix_str(ex, m, a, fr, dest):
     return none()
 
 
-@model(r'<\[u8\] as Ord>::cmp|<&\[u8\] as Ord>::cmp|<\[u8\] as PartialOrd>::partial_cmp')
+@model(r'<\[u8\] as Ord>::cmp|<&\[u8\] as Ord>::cmp|<\[u8\] as PartialOrd>::partial_cmp|<&\[u8\] as PartialOrd>::partial_cmp')
 def bytes_cmp(ex, m, a, fr, dest):
     x, y = deref(a[0]), deref(a[1])
     cx, cy = concrete_bytes(x), concrete_bytes(y)
@@ -2640,6 +2640,12 @@ def path_push(ex, m, a, fr, dest):
     cur = r.get()
     r.set(path_join(ex, m, [cur, a[1]], fr, dest))
     return UNIT
+
+
+@model(r'(?:std::ffi::)?OsStr::to_string_lossy|(?:std::ffi::)?OsString::to_string_lossy')
+def osstr_to_string_lossy(ex, m, a, fr, dest):
+    # names in the models are valid UTF-8: the lossy conversion is the identity on them (non-UTF-8 names are outside every harness)
+    return deref(a[0])
 
 
 @model(r'(?:std::path::)?Path::to_string_lossy|(?:std::path::)?Path::display|(?:std::path::)?Path::to_str')
